@@ -273,6 +273,39 @@ func connScenarios() []scenario {
 				}
 				return ""
 			}})
+		// a record with an impossible header arrives (the reader answers with an alert and fails) while
+		// another goroutine writes: the alert and the data record go out one after the other, so the peer
+		// reads the whole message whenever Write reported success
+		out = append(out, scenario{name: fmt.Sprintf("one-conn-bad-record-read-write/%04x", suite), bound: 2, boundT: 3,
+			setup: func() interface{} {
+				e := establish(suite, "")
+				h := e.ct.r
+				h.mu.Lock()
+				h.buf = append(h.buf, 0x17, 0x01, 0x01, 0x48, 0x01) // application data, length 18433: beyond the ciphertext limit
+				h.mu.Unlock()
+				return e
+			},
+			threads: []func(interface{}) interface{}{
+				func(st interface{}) interface{} {
+					buf := make([]byte, 16)
+					n, err := st.(*established).cl.Read(buf)
+					return fmt.Sprint(n, err != nil)
+				},
+				wr("AAAAA"),
+			},
+			accept: func(st interface{}, res []interface{}) string {
+				got, _ := st.(*established).drain()
+				if fmt.Sprint(res[0]) != "0 true" {
+					return fmt.Sprintf("Read of an oversized record returned %v", res[0])
+				}
+				if fmt.Sprint(res[1]) == "5 <nil>" && got != "AAAAA" {
+					return fmt.Sprintf("Write reported success but the peer read %q before its stream failed", got)
+				}
+				if got != "" && got != "AAAAA" {
+					return fmt.Sprintf("the peer read %q, not the written message", got)
+				}
+				return ""
+			}})
 	}
 	return out
 }
